@@ -421,6 +421,21 @@ func (runInfo *runInfoStruct) invokeLetDerefExpr(expr *ast.DerefExpr) {
 		return
 	}
 
+	if runInfo.rv.Kind() == reflect.Interface && !runInfo.rv.IsNil() {
+		runInfo.rv = runInfo.rv.Elem()
+	}
+	if runInfo.rv.Kind() != reflect.Ptr || runInfo.rv.IsNil() {
+		runInfo.err = newStringError(expr.Expr, "cannot deference non-pointer")
+		runInfo.rv = nilValue
+		return
+	}
+	value, runInfo.err = convertReflectValueToType(value, runInfo.rv.Type().Elem())
+	if runInfo.err != nil {
+		runInfo.err = newStringError(expr, "type "+value.Type().String()+" cannot be assigned to type "+runInfo.rv.Type().Elem().String())
+		runInfo.rv = nilValue
+		return
+	}
+
 	runInfo.rv.Elem().Set(value)
 	runInfo.rv = value
 }
